@@ -261,8 +261,29 @@ def make_mem_models():
             v = PathBufT(v.chars)
         return opt_some(ex, v)
 
+    def m_pathbuf_clone_from(ex, st, args, callee, ty):
+        dst, src = args[0], text_of(ex, st, args[1])
+        new = PathBufT(src)
+        if isinstance(dst, Ref):
+            ex._write(st, dst.depth, dst.local, dst.proj, new)
+        elif isinstance(dst, BoxRef):
+            dst.obj = new
+        else:
+            raise Unsupported("clone_from through %r" % (dst,))
+        return UNIT
+
     def m_default_scalar(ex, st, args, callee, ty):
         t = callee
+        if "<bool as" in t:
+            return B(False)
+        if "<u32 as" in t:
+            return BV(32, False, 0)
+        if "<usize as" in t:
+            return BV(64, False, 0)
+        if "<String as" in t:
+            return SStr([])
+        if "<PathBuf as" in t:
+            return PathBufT([])
         if "u64" in t:
             return BV(64, False, 0)
         if "Vec<u8>" in t:
@@ -309,7 +330,12 @@ def make_mem_models():
         (rx(r"^Vec::<u8>::new$"), m_vec_u8_new),
         (rx(r"^Vec::<u8>::len$"), m_vec_len),
         (rx(r"^Vec::<u8>::is_empty$"), m_vec_is_empty),
-        (rx(r"^<(u64|Vec<u8>|Option<.*>) as Default>::default$"), m_default_scalar),
+        (rx(r"^<(u64|u32|usize|bool|String|PathBuf|Vec<u8>|Option<.*>) as Default>::default$"), m_default_scalar),
+        (rx(r"^<PathBuf as Clone>::clone_from$"), m_pathbuf_clone_from),
+        (rx(r"^<&HashSet<String> as IntoIterator>::into_iter$"), m_set_iter),
+        (rx(r"^<(?:std::collections::)?hash_set::Iter<'_, String> as IntoIterator>::into_iter$"), lambda ex, st, args, callee, ty: args[0]),
+        (rx(r"^<(?:std::collections::)?hash_set::Iter<'_, String> as Iterator>::next$"),
+         lambda ex, st, args, callee, ty: (opt_some(ex, _obj(ex, st, args[0]).items.pop(0)) if _obj(ex, st, args[0]).items else opt_none(ex))),
         (rx(r"^Vec::<.*>::new$"), m_vec_u8_new),
         (rx(r"^Vec::<.*>::push$"), lambda ex, st, args, callee, ty: (_obj(ex, st, args[0]).items.append(args[1]), UNIT)[1]),
         (rx(r"^Vec::<.*>::pop$"), lambda ex, st, args, callee, ty: (opt_some(ex, _obj(ex, st, args[0]).items.pop()) if _obj(ex, st, args[0]).items else opt_none(ex))),
@@ -318,7 +344,8 @@ def make_mem_models():
         (rx(r"^Vec::<.*>::clear$"), m_vec_u8_clear),
         (rx(r"^Box::<\[.*; \d+\]>::new_uninit$"), m_new_uninit),
         (rx(r"^(?:std::boxed::)?box_assume_init_into_vec_unsafe::<.*, \d+>$"), m_into_vec),
-        (rx(r"^<Option<(PathBuf|String)> as Clone>::clone$"), m_opt_clone),
+        (rx(r"^<Option<(PathBuf|String|u32|u64|usize|bool)> as Clone>::clone$"), m_opt_clone),
+        (rx(r"^<(String|PathBuf) as Clone>::clone$"), lambda ex, st, args, callee, ty: (PathBufT(text_of(ex, st, args[0])) if "PathBuf" in callee else SStr(sstr_of(ex, st, args[0]).chars))),
     ]
 
 
